@@ -11,6 +11,14 @@ V = os.path.dirname(here)
 M = json.load(open(os.path.join(here, "measurements.json")))
 QUICK_CBMC_S = 160
 QUICK_RSS_MB = 14000
+# measured as not finishing within 16-30 GB / 2400 s on this machine: kept, selectable with --tier heavy
+PIN_HEAVY = set("""
+c02_resend_rearms_06 c02_resend_rearms_07 c02_tick_step_online_06 c02_tick_step_online_07 c02_tick_step_tokenwait_07
+c01_feed_step_online_keepalive_06 c01_feed_step_online_close_06 c01_feed_step_online_chunks_06 c01_feed_step_online_connect_06
+c01_feed_step_online_k4_06 c01_feed_step_online_k5_06 c01_feed_step_onlinenotoken_close_06 c01_feed_step_onlinenotoken_chunks_06
+c01_feed_step_onlinenotoken_k4_06 c17_tick_skip_step_wide c17_frag_read_player_diff_bytewise c11_delta_corrupt_num_deleted
+c20_reject_removes_only_that_peer
+""".split())
 PIN_THOROUGH = set("""
 c11_delta_corrupt_num_deleted c02_resend_rearms_06 c02_resend_rearms_07 c17_decode_prefix_console_command
 c02_tick_step_tokenwait_07
@@ -31,6 +39,8 @@ for f in sorted(glob.glob(os.path.join(V, "plans", "C*.json"))):
         m = M.get(n)
         if h.get("expect") == "fail" or h.get("pin"):
             pass
+        elif n in PIN_HEAVY:
+            h["tier"] = "heavy"
         elif n in PIN_THOROUGH:
             h["tier"] = "thorough"
         elif n in PIN_QUICK:
@@ -46,6 +56,8 @@ for f in sorted(glob.glob(os.path.join(V, "plans", "C*.json"))):
             if m.get("cbmc_s") is None:
                 h["mem_gb"] = max(h["mem_gb"], 30)
         h["timeout_s"] = 700 if h["tier"] == "quick" else 2400
+        if h["tier"] == "heavy":
+            h["mem_gb"] = max(h.get("mem_gb", 4), 30)
         if h["tier"] == "quick":
             est.append(((m or {}).get("cbmc_s") or 60, h.get("mem_gb", 4), n))
     # crude schedule: 16 jobs, 44 GB, +12 s compile per harness, + 60 s build
@@ -67,7 +79,7 @@ for f in sorted(glob.glob(os.path.join(V, "plans", "C*.json"))):
         now = running[0][0]
         running.pop(0)
     nq = len(est)
-    nt = len(p["harnesses"]) - nq
+    nt = sum(1 for h in p["harnesses"] if h["tier"] == "thorough")
     unknown = [h["name"] for h in p["harnesses"] if h["name"] not in M]
     print("%s quick=%d thorough=%d est_quick_wall=%ds (+build ~60s) unmeasured=%d %s" % (p["property"] + ("/" + os.path.basename(f)[:-5] if os.path.basename(f)[:-5] != p["property"] else ""), nq, nt, now, len(unknown), unknown[:4]))
     if write:
